@@ -1230,8 +1230,21 @@ def _name_of(k):
     return If(N_DECL > 0, NAME_DECL(k), NAME_DYN(k))
 
 
+HOLDS_DEFAULT = z3.Function('slot.holdsDefault', z3.IntSort(), z3.BoolSort())
+
+
+def _counts(k):
+    # a member the constraints get to see: a value, and not the default value of a DEFAULT component (what a read leaves in
+    # the slot of an absent one -- the encoders leave it out, so the constraints must not take it for a present member:
+    # `d ABSENT` held on the first encode() and failed on the second)
+    return And(good(Select(LID0, k)), Not(HOLDS_DEFAULT(k)))
+
+
 def _record_self_for_consistency(ex, env):
     o = _record_self_iterable(ex, env)
+    # callee SequenceAndSetBase._holdsDefault(idx, value): "the DEFAULT component at idx holds its default value" (an opaque
+    # predicate of the position)
+    o.methods['_holdsDefault'] = lambda ex2, self, idx, value: HOLDS_DEFAULT(toint(idx))
 
     def declared_name(ex2, self, idx):
         """NamedTypes.getNameByPosition: PyAsn1Error for a position the declaration does not have"""
@@ -1257,15 +1270,15 @@ def _record_self_for_consistency(ex, env):
 
 def _named_upto(ex, mapping, upto):
     """the mapping holds, under its name, every stored member of a position below `upto` that is a value (not the schema
-    placeholder a read leaves in an unset slot) -- and nothing else"""
+    placeholder a read leaves in an unset slot, nor the default value of a DEFAULT component) -- and nothing else"""
     if not (isinstance(mapping, Obj) and 'present' in mapping.fields):
         return False
     p, ids = mapping.fields['present'], mapping.fields['ids']
     upto = toint(upto)
-    return And(ForAll([_k], Implies(And(_k >= 0, _k < upto, good(Select(LID0, _k))),
+    return And(ForAll([_k], Implies(And(_k >= 0, _k < upto, _counts(_k)),
                                     And(Select(p, _name_of(_k)), Select(ids, _name_of(_k)) == Select(LID0, _k)))),
                ForAll([_i], Implies(Select(p, _i), And(NAME_INV(_i) >= 0, NAME_INV(_i) < upto, _name_of(NAME_INV(_i)) == _i,
-                                                       good(Select(LID0, NAME_INV(_i))),
+                                                       _counts(NAME_INV(_i)),
                                                        Select(ids, _i) == Select(LID0, NAME_INV(_i))))))
 
 
@@ -1305,6 +1318,43 @@ RECORD_LEN = record_contract(
     raises={'PyAsn1Error': 'schema'},
     note='len() of the slot list is python\'s; on a schema object the noValue sentinel refuses it')
 CONTRACTS = CONTRACTS + [RECORD_LEN]
+
+
+# ---- "this slot holds the default value of its DEFAULT component" (callee of isInconsistent) -------------------------------------
+def _hd_self(ex, env):
+    default = Obj('Asn1Value', {}, name='defaultValue')
+    nt = Obj('NamedType', {'isDefaulted': z3.Bool('slot.isDefaulted'), 'asn1Object': default}, name='namedType')
+
+    def getitem(ex2, self, idx):
+        if concrete(idx) is None and not (hasattr(idx, 'sort')):
+            raise Unsupported('componentType[%r]' % (idx,))
+        ex2.ghost['looked_up'] = idx
+        return nt
+    return Obj('Sequence', {'_componentTypeLen': z3.Int('declared.count'),
+                            'componentType': Obj('NamedTypes', {}, {'__getitem__': getitem}, name='componentType')}, name='self')
+
+
+def _hd_value(ex, env):
+    def eq(ex2, self, other):
+        if isinstance(other, Obj) and other.name == 'defaultValue':
+            return z3.Bool('value.equalsDefault')
+        raise Unsupported('value compared with something other than the declared default')
+    return Obj('Asn1Value', {}, {'__eq__': eq}, name='value')
+
+
+HOLDS_DEFAULT_C = Contract(
+    file=U, id='type.univ::SequenceAndSetBase._holdsDefault', qual='SequenceAndSetBase._holdsDefault',
+    properties=['C12', 'C14', 'C10', 'C01', 'C02'],
+    params=dict(self=PDerived(_hd_self), idx=PInt(), value=PDerived(_hd_value)),
+    ghost={'looked_up': -1},
+    globals={'declared': z3.Int('declared.count'), 'isDefaulted': z3.Bool('slot.isDefaulted'),
+             'equalsDefault': z3.Bool('value.equalsDefault')},
+    requires=['declared >= 0'],
+    ensures=[('default-held-iff-declared-defaulted-and-equal',
+              '(True if result else False) == (declared > 0 and isDefaulted and equalsDefault)'),
+             ('the-components-own-declaration-is-asked', 'declared > 0 ==> looked_up == idx')],
+    note='NamedTypes.__getitem__ and the comparison of the member with the default value object are assumed models')
+CONTRACTS = CONTRACTS + [HOLDS_DEFAULT_C]
 
 
 # ---- reverse() of a SEQUENCE OF: position k holds what position L-1-k held (C19) ------------------------------------------------
